@@ -303,6 +303,7 @@ def scenario_network(spec):
     cfg = read_config(name)
     ev("configured", config=cfg, processes=len(nw.processes))
     all_pids = []
+    occupied = []
     try:
         start_failed = False
         for step in spec["steps"]:
@@ -355,6 +356,20 @@ def scenario_network(spec):
                 ev("reopen", nodes=list(nw.nodes), processes=len(nw.processes), same_config=(read_config(name) == cfg))
             elif op == "sleep":
                 time.sleep(step["s"])
+            elif op == "occupy":
+                # something else listens on one node's qnodeos port: that process sits in its listen-retry loop and is slow to go down
+                import socket as _socket
+                sk = _socket.socket(_socket.AF_INET, _socket.SOCK_STREAM)
+                sk.setsockopt(_socket.SOL_SOCKET, _socket.SO_REUSEADDR, 1)
+                sk.bind(("127.0.0.1", cfg[step["node"]][step["kind"]]))
+                sk.listen(1)
+                occupied.append(sk)
+                ev("occupy", node=step["node"], kind=step["kind"], port=cfg[step["node"]][step["kind"]])
+            elif op == "release":
+                for sk in occupied:
+                    sk.close()
+                del occupied[:]
+                ev("release")
             else:
                 raise ValueError(op)
     finally:
@@ -479,11 +494,83 @@ def scenario_stagger(spec):
     return cfg
 
 
+# ---------------------------------------------------------------------------------------------------------------------
+# scenario 3: the real Network.start()/stop() code over stand-in process objects (processes that are slow to go down or ignore the
+# first signals cannot be produced on demand with real interpreters; the loop that waits for them is what is exercised here)
+# ---------------------------------------------------------------------------------------------------------------------
+def scenario_fakestop(spec):
+    patch_port_choice(spec["ports"])
+    import simulaqron.network as netmod
+    from simulaqron.network import Network
+    name, nodes = spec["name"], spec["nodes"]
+    nw = Network(name, list(nodes), None, force=True, new=True)
+    clock = [0.0]
+
+    class FakeTime:
+        @staticmethod
+        def sleep(s):
+            clock[0] += s
+
+        @staticmethod
+        def time():
+            return clock[0]
+
+    class FakeProc:
+        """needs `signals` terminate() calls and then `lag` seconds before it is gone"""
+        def __init__(self, name, signals, lag):
+            self.name, self.need, self.lag = name, signals, lag
+            self.pid = 4000 + len(procs)
+            self.got, self.dying_since, self.started = 0, None, False
+
+        def start(self):
+            self.started = True
+
+        def is_alive(self):
+            if not self.started:
+                return False
+            return self.dying_since is None or clock[0] - self.dying_since < self.lag
+
+        def terminate(self):
+            self.got += 1
+            if self.got >= self.need and self.dying_since is None:
+                self.dying_since = clock[0]
+
+        def join(self, timeout=None):
+            t_end = clock[0] + (timeout if timeout is not None else 1e9)
+            while self.is_alive() and clock[0] < t_end:
+                clock[0] += 0.05
+
+        def kill(self):
+            self.dying_since = clock[0] - self.lag
+    procs = []
+    for p_real, (sig, lag) in zip(nw.processes, spec["behaviour"]):
+        procs.append(FakeProc(p_real.name, sig, lag))
+    nw.processes = procs
+    saved_time, saved_timer = netmod.time, getattr(netmod, "timer", None)
+    netmod.time = FakeTime
+    if saved_timer is not None:
+        netmod.timer = FakeTime.time
+    try:
+        for p in procs:
+            p.start()
+        nw._running = True
+        nw.stop()
+        ev("fakestop", behaviour=spec["behaviour"], alive_after_stop=[p.name for p in procs if p.is_alive()],
+           signals=[p.got for p in procs], fake_seconds=round(clock[0], 2))
+    finally:
+        netmod.time = saved_time
+        if saved_timer is not None:
+            netmod.timer = saved_timer
+        for p in procs:
+            p.kill()
+    return read_config(name)
+
+
 def main():
     spec = json.load(open(sys.argv[1]))
     out = OUT
     try:
-        out["config"] = (scenario_network if spec["kind"] == "network" else scenario_stagger)(spec)
+        out["config"] = {"network": scenario_network, "stagger": scenario_stagger, "fakestop": scenario_fakestop}[spec["kind"]](spec)
     except BaseException:
         out["error"] = traceback.format_exc()[-3000:]
     finally:
